@@ -487,6 +487,11 @@ func (fd *Client) BatchWriteItem(ctx context.Context, input *dynamodb.BatchWrite
 		return &dynamodb.BatchWriteItemOutput{}, err
 	}
 
+	// a request that cannot be applied fails the whole batch before anything is written
+	if err := fd.validateBatchWriteRequests(input); err != nil {
+		return &dynamodb.BatchWriteItemOutput{}, err
+	}
+
 	unprocessed := map[string][]types.WriteRequest{}
 
 	for table, reqs := range input.RequestItems {
@@ -586,6 +591,33 @@ func validateBatchWriteItemInput(input *dynamodb.BatchWriteItemInput) error {
 
 	if count > batchRequestsLimit {
 		return &smithy.GenericAPIError{Code: "ValidationException", Message: "Too many items requested for the BatchWriteItem call"}
+	}
+
+	return nil
+}
+
+func (fd *Client) validateBatchWriteRequests(input *dynamodb.BatchWriteItemInput) error {
+	if fd.forceFailureErr != nil {
+		return nil
+	}
+
+	for tableName, reqs := range input.RequestItems {
+		table, err := fd.getTable(tableName)
+		if err != nil {
+			return mapKnownError(err)
+		}
+
+		for _, req := range reqs {
+			if req.PutRequest != nil {
+				err = table.ValidatePut(mapDynamoToTypesMapItem(req.PutRequest.Item))
+			} else {
+				err = table.ValidateKey(mapDynamoToTypesMapItem(req.DeleteRequest.Key))
+			}
+
+			if err != nil {
+				return mapKnownError(err)
+			}
+		}
 	}
 
 	return nil
